@@ -46,6 +46,8 @@ def outcome_of_spec(spec, name):
         return ("c",)
     if k == "fn":
         return ("v", "fn")
+    if k == "futvalue":
+        return ("v", ["!future", name + ".val"])
     raise ValueError(spec)
 
 
